@@ -7,6 +7,7 @@ counters are parameters (`termPre`, `termPost`, `Delta`): the theorems hold for 
 every algorithm.
 -/
 import MysticVerif.Model.Solver
+import MysticVerif.Model.Signal
 import Mathlib.Order.Basic
 
 namespace MysticVerif.C05
@@ -317,6 +318,61 @@ theorem warnflag_iff_limit_message (c : Ctl) (term : Bool) : c.message term = so
 example : ({ evals := 7, gens := 3, maxfun := .val 7, maxiter := .val 3 } : Ctl).warnflag = 1 ∧
     ({ evals := 6, gens := 3, maxfun := .val 7, maxiter := .val 3 } : Ctl).warnflag = 2 ∧
     ({ evals := 6, gens := 2, maxfun := .val 7, maxiter := .val 3 } : Ctl).warnflag = 0 := by decide
+
+/-! ### the interrupt handler (`_signal.Handler`): an exit is requested exactly by the `exit` switch -/
+
+open MysticVerif.Signal in
+theorem handle_earlyExit (cb : Bool) : ∀ (inputs : List Switch) (e : Effect),
+    (handle cb inputs e).earlyExit = (e.earlyExit || decide (firstEnding inputs = some .exit)) := by
+  intro inputs
+  induction inputs with
+  | nil => intro e; simp [handle, firstEnding]
+  | cons s rest ih =>
+    intro e
+    cases s <;> simp [handle, firstEnding, ih] <;> (try rfl) <;> (try congr)
+
+open MysticVerif.Signal in
+/-- **an exit is requested iff the dialogue is ended by `exit`** (whatever was typed before: `sol`, `call`, unknown
+options), the dialogue reads inputs only up to the first `cont` / `exit`, and `sigint_callback` runs once per `call` -/
+theorem signal_exit_iff (cb : Bool) (inputs : List Switch) :
+    ((deliver cb inputs).earlyExit = true ↔ firstEnding inputs = some .exit) ∧
+    ((deliver cb inputs).finished = true ↔ (firstEnding inputs).isSome = true) ∧
+    (deliver cb inputs).consumed ≤ inputs.length := by
+  unfold deliver
+  refine ⟨by rw [handle_earlyExit]; simp [start], ?_, ?_⟩
+  · suffices h : ∀ (l : List Switch) (e : Effect), (handle cb l e).finished = (e.finished || (firstEnding l).isSome) by
+      rw [h]; simp [start]
+    intro l
+    induction l with
+    | nil => intro e; simp [handle, firstEnding]
+    | cons s rest ih => intro e; cases s <;> simp [handle, firstEnding, ih]
+  · suffices h : ∀ (l : List Switch) (e : Effect), (handle cb l e).consumed ≤ e.consumed + l.length by
+      have := h inputs start; simpa [start] using this
+    intro l
+    induction l with
+    | nil => intro e; simp [handle]
+    | cons s rest ih =>
+      intro e
+      cases s <;> simp only [handle, List.length_cons]
+      all_goals first
+        | (have := ih { e with consumed := e.consumed + 1, printed := e.printed + 1 }; simp only at this; omega)
+        | (have := ih { e with consumed := e.consumed + 1, called := e.called + (if cb = true then 1 else 0) }; simp only at this; omega)
+        | (have := ih { e with consumed := e.consumed + 1, unknown := e.unknown + 1 }; simp only at this; omega)
+        | omega
+
+open MysticVerif.Signal in
+/-- **a delivered `exit` stops the run at the next stop test**: with the flag the handler sets, `Step` does not begin a
+further iteration and reports the interrupt unless a limit is reached as well -/
+theorem no_step_after_signal_exit (c : Ctl) (cb : Bool) (inputs : List Switch) (hx : firstEnding inputs = some .exit)
+    (termPre termPost : Bool) (d : Delta) (hn : c.nstep ≠ 0) :
+    ({ c with earlyExit := c.earlyExit || (deliver cb inputs).earlyExit } : Ctl).step termPre termPost d |>.2.2 = false := by
+  have he : (deliver cb inputs).earlyExit = true := (signal_exit_iff cb inputs).1.mpr hx
+  have := no_step_when_stopped ({ c with earlyExit := c.earlyExit || (deliver cb inputs).earlyExit } : Ctl) termPre termPost d
+    (by simpa using hn) (Or.inr (Or.inr (Or.inl (by simp [he]))))
+  exact this.1
+
+example : MysticVerif.Signal.deliver true [.sol, .other, .call, .exit, .cont]
+    = { earlyExit := true, consumed := 4, printed := 1, called := 1, unknown := 1, finished := true } := by decide
 
 /-- non-vacuity: a run that stops by its generation limit, with a truthful message -/
 example : (({ nstep := 1, gens := 2, maxiter := .val 2, live := true } : Ctl).step false false { dEvals := 3 }).2.1 = some .lim := by
